@@ -114,7 +114,11 @@ CaseStart ==
                            (IF Pc("C14") /\ ~cs.twin_equal
                               THEN {Tag("C14", "integer delivery and packed-byte delivery of the same audio give different streams")} ELSE {}) \cup
                            (IF Pc("C08") /\ cs.count # 8 * Len(b)
-                              THEN {Tag("C08", "stream count_bits differs from the bits written")} ELSE {})
+                              THEN {Tag("C08", "stream count_bits differs from the bits written")} ELSE {}) \cup
+                           \* the same stream through the other in-memory sink type (MemSink<u64>): bits it holds, bytes it exports
+                           (IF Pc("C08") /\ cs.w64 # -1 /\ (cs.w64 # cs.count \/ ~cs.w64_same)
+                              THEN {Tag("C08", "written into the word-based sink the stream occupies " \o ToString(cs.w64) \o " bits (count_bits "
+                                               \o ToString(cs.count) \o "), byte export equal to the byte-based sink: " \o ToString(cs.w64_same))} ELSE {})
 
 \* little-endian two's complement serialisation of one block (section 8.2: MD5 input)
 Serialise(x, ch, bps) ==
